@@ -12,8 +12,8 @@ import (
 
 	"github.com/google/uuid"
 	"github.com/nspcc-dev/bbolt"
-	iec "github.com/nspcc-dev/neofs-node/pkg/util/verifbridge"
 	meta "github.com/nspcc-dev/neofs-node/pkg/local_object_storage/metabase"
+	iec "github.com/nspcc-dev/neofs-node/pkg/util/verifbridge"
 	apistatus "github.com/nspcc-dev/neofs-sdk-go/client/status"
 	"github.com/nspcc-dev/neofs-sdk-go/object"
 	oid "github.com/nspcc-dev/neofs-sdk-go/object/id"
@@ -34,13 +34,13 @@ const (
 
 // mHdr is one header of an object's chain (self, parent, grandparent) as written in an op line.
 type mHdr struct {
-	id, typ                      string
-	size                         int
+	id, typ                       string
+	size                          int
 	parentID, first, split, assoc int
-	exp                          string
-	hasExp                       bool
-	ecRule, ecPart               int
-	hasEC, other                 bool
+	exp                           string
+	hasExp                        bool
+	ecRule, ecPart                int
+	hasEC, other                  bool
 }
 
 func parseHdr(o opLine, pre string) (mHdr, bool) {
@@ -402,7 +402,8 @@ func newMetaGenState(c *runCtx) *metaGenState {
 		}
 		// at most one mid-level object (a split child that is itself an EC parent): id 5
 		mid := r.IntN(3) == 0
-		midGP, midF := 9+r.IntN(4), 1+r.IntN(3)
+		midGP := 9 + r.IntN(4)
+		midF := midGP - 8
 		if mid {
 			g.asPar[cn][5] = fmt.Sprintf("size=20 first=%d", midF)
 		}
@@ -419,41 +420,64 @@ func newMetaGenState(c *runCtx) *metaGenState {
 			}
 			return s
 		}
+		// every virtual parent has one kind: size-split by first id (v2), size-split by split id (v1) or EC
+		kind := [13]int{}
+		for p := 9; p <= 12; p++ {
+			kind[p] = r.IntN(3)
+		}
+		if mid {
+			kind[midGP] = 0
+		}
+		pick := func(k int) int { // a parent of the given kind, 0 if there is none
+			var c []int
+			for p := 9; p <= 12; p++ {
+				if kind[p] == k {
+					c = append(c, p)
+				}
+			}
+			if len(c) == 0 {
+				return 0
+			}
+			return c[r.IntN(len(c))]
+		}
 		for o := 1; o <= 8; o++ {
-			P, F := 9+r.IntN(4), 1+r.IntN(3)
 			if mid && o == 5 {
 				g.self[cn][o] = fmt.Sprintf("typ=REG size=20 first=%d", midF) + parentFields("p.", midGP)
 				continue
 			}
+			root := withExp(fmt.Sprintf("typ=REG size=%d", r.IntN(40)))
+			pv2, pv1, pec := pick(0), pick(1), pick(2)
+			// first id / split id are functions of the parent: members of one chain agree on them
+			F, S := pv2-8, pv1-8
 			switch k := r.IntN(100); {
-			case k < 22:
-				g.self[cn][o] = withExp(fmt.Sprintf("typ=REG size=%d", r.IntN(40)))
-			case k < 27: // first part: parent header without id
+			case k < 20:
+				g.self[cn][o] = root
+			case k < 25: // first part: parent header without id
 				g.self[cn][o] = fmt.Sprintf("typ=REG size=%d p.id=0 p.size=50", r.IntN(20))
-			case k < 33: // middle part
+			case k < 31 && pv2 != 0: // middle part
 				g.self[cn][o] = fmt.Sprintf("typ=REG size=%d first=%d other=1", r.IntN(20), F)
-			case k < 41: // last part carrying the parent header
-				g.self[cn][o] = withExp(fmt.Sprintf("typ=REG size=%d first=%d", r.IntN(20), F)) + parentFields("p.", P)
-			case k < 46: // link
-				g.self[cn][o] = fmt.Sprintf("typ=LINK size=0 first=%d", F) + parentFields("p.", P)
-			case k < 50: // v1 split member
-				g.self[cn][o] = fmt.Sprintf("typ=REG size=%d split=%d", r.IntN(20), 1+r.IntN(2))
-			case k < 54: // v1 last/link member carrying the parent header
-				g.self[cn][o] = fmt.Sprintf("typ=REG size=%d split=%d", r.IntN(3), 1+r.IntN(2)) + parentFields("p.", P)
-			case k < 57: // only the parent id
-				g.self[cn][o] = fmt.Sprintf("typ=REG size=%d par=%d", r.IntN(20), P)
-			case k < 68: // EC part
-				g.self[cn][o] = fmt.Sprintf("typ=REG size=10 ec=%d/%d", r.IntN(2), r.IntN(3)) + parentFields("p.", P)
+			case k < 39 && pv2 != 0: // last part carrying the parent header
+				g.self[cn][o] = withExp(fmt.Sprintf("typ=REG size=%d first=%d", r.IntN(20), F)) + parentFields("p.", pv2)
+			case k < 44 && pv2 != 0: // link
+				g.self[cn][o] = fmt.Sprintf("typ=LINK size=0 first=%d", F) + parentFields("p.", pv2)
+			case k < 48 && pv1 != 0: // v1 split member
+				g.self[cn][o] = fmt.Sprintf("typ=REG size=%d split=%d", r.IntN(20), S)
+			case k < 53 && pv1 != 0: // v1 last/link member carrying the parent header
+				g.self[cn][o] = fmt.Sprintf("typ=REG size=%d split=%d", r.IntN(3), S) + parentFields("p.", pv1)
+			case k < 56 && pv2 != 0: // only the parent id
+				g.self[cn][o] = fmt.Sprintf("typ=REG size=%d first=%d par=%d", r.IntN(20), F, pv2)
+			case k < 68 && pec != 0: // EC part
+				g.self[cn][o] = fmt.Sprintf("typ=REG size=10 ec=%d/%d", r.IntN(2), r.IntN(3)) + parentFields("p.", pec)
 			case k < 72 && mid && o < 5: // EC part of the mid-level object
 				g.self[cn][o] = fmt.Sprintf("typ=REG size=5 ec=0/%d", r.IntN(3)) + parentFields("p.", 5) + parentFields("g.", midGP)
 			case k < 84:
-				g.self[cn][o] = withExp(fmt.Sprintf("typ=TS assoc=%d", g.target()))
+				g.self[cn][o] = withExp(fmt.Sprintf("typ=TS assoc=%d", g.targetNot(o)))
 			case k < 96:
-				g.self[cn][o] = withExp(fmt.Sprintf("typ=LOCK assoc=%d", g.target()))
-			case k < 98:
-				g.self[cn][o] = fmt.Sprintf("typ=%s size=3 assoc=0", []string{"SG", "TS", "LOCK"}[r.IntN(3)])
+				g.self[cn][o] = withExp(fmt.Sprintf("typ=LOCK assoc=%d", g.targetNot(o)))
+			case k < 98: // malformed: no associated object (must be rejected)
+				g.self[cn][o] = fmt.Sprintf("typ=%s size=3 assoc=0", []string{"TS", "LOCK"}[r.IntN(2)])
 			default:
-				g.self[cn][o] = fmt.Sprintf("typ=REG size=%d", r.IntN(40))
+				g.self[cn][o] = root
 			}
 		}
 	}
@@ -462,20 +486,30 @@ func newMetaGenState(c *runCtx) *metaGenState {
 
 func (g *metaGenState) cn() int { return 1 + g.c.rng.IntN(g.nc) }
 
+// expStr is an expiration attribute the format validator accepts (strconv.ParseUint): decimal digits,
+// possibly with leading zeros.
 func (g *metaGenState) expStr() string {
 	r := g.c.rng
 	switch r.IntN(12) {
 	case 0:
-		return hx("+" + strconv.Itoa(r.IntN(8)))
-	case 1:
 		return hx("0" + strconv.Itoa(r.IntN(8)))
-	case 2:
-		return hx([]string{"abc", "-3", "18446744073709551616", "", " 4"}[r.IntN(5)])
+	case 1:
+		return hx([]string{"18446744073709551615", "000", "0010"}[r.IntN(3)])
 	}
 	return hx(strconv.Itoa(r.IntN(10)))
 }
 
 func (g *metaGenState) target() int { return 1 + g.c.rng.IntN(metaNO) }
+
+// targetNot picks the target of a tombstone/lock: never the object itself (its id is the hash of a header
+// that contains the target id).
+func (g *metaGenState) targetNot(o int) int {
+	for {
+		if t := g.target(); t != o {
+			return t
+		}
+	}
+}
 
 func (g *metaGenState) ids() []int {
 	n := 1 + g.c.rng.IntN(3)
